@@ -1,6 +1,6 @@
 /- Driver/C18.lean — line-protocol driver for the C18 model (see Base/Proto.lean).
 
-   in:  {"op":"reset","self":n,"ncpu":n,"nr_open":n,"cap":bool,
+   in:  {"op":"reset","self":n,"ncpu":n,["stat_cpus":n (cpuN lines of /proc/stat; default ncpu),]"nr_open":n,"cap":bool,
          "procs":[{"pid":n,"nice":i,"ioprio":n,"affinity":[n],"cpuset":[n],"rlimits":[[s,h]×16]}]}
         {"op":"call","pid":n,["errno":n,]["status_mask":[n]|null,]   (execution context: C errno on entry of the native
                                                                       layer; mask shown by the cached status file)
@@ -99,7 +99,8 @@ def handle (d : DSt) (j : Json) : R (DSt × Json) := do
     let ps ← listF parseProc j "procs"
     let k : Kernel :=
       { procs := fun q => ps.lookup q
-        self := ← natF j "self", ncpu := ← natF j "ncpu", nrOpen := ← natF j "nr_open"
+        self := ← natF j "self", ncpu := ← natF j "ncpu"
+        statCpus := (← optF asNat j "stat_cpus").getD (← natF j "ncpu"), nrOpen := ← natF j "nr_open"
         capResource := ← boolF j "cap", log := [] }
     return (⟨k, ps.map (·.1)⟩, ok (Json.str "reset"))
   if op == "pack" then
